@@ -195,6 +195,13 @@ func ExtractIDs(exts []pkix.Extension) ([]string, error) {
 
 	ids := []string{}
 	for _, id := range idsWithType {
+		// An iPAddress SAN holds the raw 4 or 16 address bytes, not text.
+		if id.Type == TypeIP {
+			if ip, ok := netip.AddrFromSlice(id.Value); ok {
+				ids = append(ids, ip.String())
+				continue
+			}
+		}
 		ids = append(ids, string(id.Value))
 	}
 	return ids, nil
